@@ -226,15 +226,24 @@ func c08EncodeNamed(res *vlib.Result, attrNames []string, exprs []string, st c09
 		ad.InsertExpr(n, pe)
 		names = append(names, n)
 	}
+	privFirst := len(attrNames) > 0 && strings.HasPrefix(attrNames[0], "PrivThenPad")
+	if private && privFirst {
+		// the private attribute directly before a long ordinary one
+		_ = ad.Set("ClaimId", "<10.0.0.1:9618>#1700000000#1#secretcookie")
+		names = append(names, "ClaimId")
+	}
 	if pad {
 		n := 20000
 		if len(attrNames) > 0 && attrNames[0] == "HugePadFirst" {
 			n = 1<<20 + 5000 // a single attribute longer than the largest frame
 		}
+		if privFirst {
+			fmt.Sscanf(attrNames[0], "PrivThenPad%d", &n)
+		}
 		_ = ad.Set("Pad", strings.Repeat("q", n))
 		names = append(names, "Pad")
 	}
-	if private {
+	if private && !privFirst {
 		_ = ad.Set("ClaimId", "<10.0.0.1:9618>#1700000000#1#secretcookie")
 		names = append(names, "ClaimId")
 	}
@@ -508,6 +517,20 @@ func C08Plan() *vlib.Plan {
 				res := &vlib.Result{}
 				c08EncodeNamed(res, []string{"HugePadFirst"}, []string{"1"}, st, true, true, false, false)
 				c08EncodeNamed(res, []string{"HugePadFirst", "Tail"}, []string{`"x"`, "2"}, st, true, false, false, false)
+				return res
+			}})
+		}
+		// encode side: a private attribute directly followed by a long ordinary attribute (around the
+		// 4 KiB flush threshold and the 16 KiB target frame size), in every stream state
+		for st := stNoKey; st <= stKeyedClearAfterSecret; st++ {
+			st := st
+			yield(vlib.Case{ID: fmt.Sprintf("encode-private-then-long/%v", st), Run: func() *vlib.Result {
+				res := &vlib.Result{}
+				for _, n := range []int{100, 4080, 4096, 4200, 16300, 16370, 16376, 16384, 16400, 20000, 70000} {
+					for _, types := range []bool{true, false} {
+						c08EncodeNamed(res, []string{fmt.Sprintf("PrivThenPad%d", n)}, []string{"7"}, st, true, types, true, false)
+					}
+				}
 				return res
 			}})
 		}
